@@ -32,7 +32,7 @@ RULE = ("A case is a JSON description of a ListGrader tree (leaves: table-driven
         ">=2 answer lists with different optima, or a grouping with interleaved members; distinct by spec.")
 ASSUMPTIONS = ["leaf results come from an independent instance of the same leaf grader class with the same config "
                "(TableGrader is deterministic; SingleListGrader leaves are trusted as black boxes here)",
-               "credits are products/averages of the palette {0, 0.1, 1/3, 0.5, 0.7, 1}: totals of different assignments "
+               "credits are products/averages of the palette {0, 0.1, 1/3, 0.5, 0.7, 1} or of a 0.001-grid palette: totals of different assignments "
                "that differ at all differ by > 1e-6, so the 1e-9 tolerance on totals only absorbs rounding of sums",
                "messages are compared modulo the documented newline -> '<br/>' + newline formatting of __call__; in the "
                "zeroed partial_credit=False case only grade and ok are asserted (the statement is silent on messages)",
@@ -53,6 +53,7 @@ REQUIRED = {'flat/unordered': 5000, 'flat/ordered/single-subgrader': 1500, 'flat
             'nested/answer-alternatives': 500}
 
 PAL = [0, 0.1, 1 / 3, 0.5, 0.7, 1]
+FINE = [0.495, 0.505, 0.334, 0.336, 0.245, 0.25, 0.755, 0.751, 0.498, 1, 0, 0.502]
 TOL = 1e-9
 
 
@@ -798,7 +799,11 @@ class Gen:
     def fill_tables(self, tokens):
         for T in self.tables:
             exps = T.pop('_e')
-            pal = self.pick([PAL, PAL, PAL, [0, 1], [0, 0.5, 1], [0, 0, 0] + PAL, [0.5, 1], [0, 0, 1, 0.7]])
+            # FINE: credits on a 0.001 grid - assignments whose totals differ by a few thousandths (a seeded change
+            # rounded the assignment costs to whole percents)
+            pal = self.pick([PAL, PAL, PAL, [0, 1], [0, 0.5, 1], [0, 0, 0] + PAL, [0.5, 1], [0, 0, 1, 0.7], FINE, FINE])
+            if pal is FINE:
+                self.fine = True
             cells = len(exps) * len(tokens)
             if not cells:
                 continue
